@@ -107,6 +107,8 @@ def run_cmp(case):
                     raise Violation("hash", f"{a!r} and {b!r} equal but not interchangeable as dict/set keys", "dictkey")
                 if ls[i] != ls[j]:
                     classes.add("equal-up-to-case")
+            elif i < j and b".".join(ls[i]).lower() == b".".join(ls[j]).lower():
+                classes.add("dot-twins-unequal")
             wrel, wn = _relation(ls[i], ls[j])
             if rel.name != wrel or nlabels != wn:
                 raise Violation(
@@ -204,8 +206,31 @@ def cmp_cases(draw):
             pass
         rel = draw(st.integers(0, 5)) == 0
         names.append(labs[:-1] if rel else labs)
-    k = draw(st.integers(0, 4))
-    if k == 0:
+    k = draw(st.integers(0, 5))
+    if k == 5:
+        # "dot twins": the same octet string cut into the same number of labels at different places,
+        # a literal '.' standing where the other name has a label boundary (also relative vs absolute)
+        parts_ = [draw(st.sampled_from([b"a", b"b", b"A", b"x", b"ab", b"c"])) for _ in range(draw(st.integers(3, 5)))]
+        nlab = draw(st.integers(2, len(parts_) - 1))
+
+        def cut(seed):
+            cuts = sorted(draw(st.lists(st.integers(1, len(parts_) - 1), min_size=nlab - 1, max_size=nlab - 1, unique=True)))
+            out, prev = [], 0
+            for c in cuts + [len(parts_)]:
+                out.append(b".".join(parts_[prev:c]))
+                prev = c
+            return out
+
+        n0, n1 = cut(0), cut(1)
+        tail = draw(st.sampled_from(["abs", "abs", "rel", "mixed"]))
+        if tail == "abs":
+            n0, n1 = n0 + [b""], n1 + [b""]
+        elif tail == "mixed":
+            # relative name whose last label ends in '.' against an absolute one
+            n0 = n0[:-1] + [n0[-1] + b"."]
+            n1 = n1 + [b""]
+        names[0], names[1] = n0, [G.flip_case(draw, l) for l in n1]
+    elif k == 0:
         names[1] = [G.flip_case(draw, l) for l in names[0]]  # equal up to case
     elif k == 1:
         names[1] = [draw(G.label(1, 8))] + names[0]  # child
@@ -356,7 +381,7 @@ def parts(tier):
     return [
         Part("cmp", run_cmp, strategy=cmp_cases(), n={"quick": 12000, "thorough": 400000},
              require={"equal-up-to-case": 300, "rel:SUBDOMAIN": 300, "rel:COMMONANCESTOR": 300, "rel:NONE": 100,
-                      "under-origin": 300, "under-origin-case-variant": 20, "namedict-match": 100}),
+                      "under-origin": 300, "under-origin-case-variant": 20, "namedict-match": 100, "dot-twins-unequal": 300}),
         Part("succ", run_succ, strategy=succ_cases(), n={"quick": 12000, "thorough": 400000},
              require={"succ-modified-label": 100, "pred-modified-label": 100, "succ-wraps": 5, "pred-of-origin": 50}),
         Part("succ-table", run_succ, cases=succ_table, shards={"quick": 8, "thorough": 8}),
